@@ -72,19 +72,94 @@ def run_one(ctx, bvh, drv, args, tag):
                                  "model": m.group(5), "impl": m.group(6), "text": line, "trace": trace})
         elif line.startswith("DRIVER"):
             res["driver_tail"] = line
+    if res["diffs"]:
+        # attach the limit in force on the diverging line (from the implementation's OBS of the previous line)
+        try:
+            lines = open(trace, errors="replace").read().split("\n")
+            for d in res["diffs"]:
+                lim = "none"
+                for j in range(d["line"] - 2, -1, -1):
+                    if lines[j].startswith("PLAN "):
+                        break
+                    mm = re.search(r" lim=(\S+)", lines[j])
+                    if mm:
+                        lim = mm.group(1)
+                        break
+                d["lim"] = lim
+        except Exception:
+            pass
     return res
 
 
+def _ptrs(chunks_field):
+    """data -> ptr from a chunks= field"""
+    out = {}
+    if chunks_field in ("-", "?", ""):
+        return out
+    for c in chunks_field.split(","):
+        q = c.split(":")
+        if len(q) == 4:
+            try:
+                out[q[0]] = (int(q[3], 16), q[1], q[2])
+            except ValueError:
+                pass
+    return out
+
+
 def project(ctx, diffs):
-    fields = set(ctx.spec.get("fields", []))
-    ops = ctx.spec.get("ops")
-    out = []
+    """Keep the disagreements that bear on this property (see DESIGN.md §1.3/§10):
+    - only the fields (and op kinds) the property is about;
+    - `placement`: a result/state disagreement on a line where the allocator interaction itself
+      differed is a consequence of a *policy* difference (limit, growth), not of placement;
+    - `upward_only`: a finger that is lower (more conservative) than the model's is not a C01 matter;
+    - `frees_only`: only the free events of an event disagreement;
+    - `impl_failure_only`: result kinds matter only where the implementation failed or the model says `bad`;
+    - `cap_overstate_only`: chunk_capacity matters only where the implementation reports more than the model;
+    - `no_limit_only`: only lines executed with no allocation limit set."""
+    spec = ctx.spec
+    fields = set(spec.get("fields", []))
+    ops = spec.get("ops")
+    by_line = {}
     for d in diffs:
-        if d["field"] not in fields and d["field"] != "parse":
-            continue
-        if ops and d["op"] not in ops:
-            continue
-        out.append(d)
+        by_line.setdefault((d["trace"], d["plan"], d["line"]), []).append(d)
+    out = []
+    for key, ds in by_line.items():
+        has_evt = any(d["field"] == "evt" for d in ds)
+        for d in ds:
+            f = d["field"]
+            if f == "parse":
+                out.append(d)
+                continue
+            if f not in fields:
+                continue
+            if ops and d["op"] not in ops:
+                continue
+            if spec.get("placement") and has_evt and f != "evt":
+                continue
+            if spec.get("upward_only") and f == "chunks":
+                m, i = _ptrs(d["model"]), _ptrs(d["impl"])
+                if set(m) == set(i) and all(i[k][0] <= m[k][0] and i[k][1:] == m[k][1:] for k in m):
+                    continue
+            if spec.get("frees_only") and f == "evt":
+                fm = [e for e in d["model"].split(" ")[0].split(",") if e.startswith("f:")]
+                fi = [e for e in d["impl"].split(" ")[0].split(",") if e.startswith("f:")]
+                if fm == fi:
+                    continue
+            if spec.get("impl_failure_only") and f == "res":
+                ik = d["impl"].split(" ")[0]
+                if ik not in ("err", "panic") and not d["model"].startswith("bad") and not d["model"].startswith("envbad"):
+                    continue
+            if spec.get("impl_failure_only") and f == "evt":
+                continue
+            if spec.get("cap_overstate_only") and f == "cap":
+                try:
+                    if int(d["impl"]) <= int(d["model"]):
+                        continue
+                except ValueError:
+                    pass
+            if spec.get("no_limit_only") and d.get("lim", "none") != "none":
+                continue
+            out.append(d)
     return out
 
 
@@ -200,7 +275,7 @@ def still_fails(ctx, bvh, plan_text, fail, tag="shrink"):
 
 def shrink(ctx, plan_text, fail):
     """greedy one-op-at-a-time removal (keeps the header and the constructor)"""
-    bvh = os.path.join(common.HARNESS, "target", "debug", "bvh")
+    bvh = os.path.join(common.harness_dir(), "target", "debug", "bvh")
     lines = [l for l in plan_text.split("\n") if l.strip()]
     if len(lines) < 3 or not still_fails(ctx, bvh, plan_text, fail):
         return plan_text, False
